@@ -21,7 +21,9 @@ PROP = "C02"
 def dnc_attrs(rec):
     o = rec.get("opts", {})
     d = o.get("do_not_copy")
-    return list(d) if isinstance(d, list) else []
+    out = list(d) if isinstance(d, list) else []
+    out += [G.attr_name(a) for a in rec["attrs"] if a.get("default") == "attr_dnc" and G.attr_name(a) not in out]
+    return out
 
 
 def targeted_attrs(rec, op):
